@@ -386,7 +386,16 @@ func genCodecDecT(g *Gen, w *bufio.Writer, t *fTables) {
 				fmt.Fprintf(w, "dec2 plain %s %s\n", hexs(a), hexs(b))
 				fmt.Fprintf(w, "dec2 %s %s %s\n", f, hexs(b), hexs(a))
 				fmt.Fprintf(w, "dec2 plain %s %s\n", hexs(c), hexs(a))
-				fmt.Fprintf(w, "dec2 plain %s %s\n", hexs(a[:len(a)-1]), hexs(b))         // failed decode, then a good one
+				fmt.Fprintf(w, "dec2 plain %s %s\n", hexs(a[:len(a)-1]), hexs(b)) // failed decode, then a good one
+				// the other family first (complete, and cut inside its header), then this message: must return
+				for _, of := range fams {
+					if of != f && len(bases[of]) > 0 {
+						o := bases[of][g.Intn(len(bases[of]))]
+						fmt.Fprintf(w, "dec2x %s %s\n", hexs(o), hexs(a))
+						fmt.Fprintf(w, "dec2x %s %s\n", hexs(o[:2]), hexs(a))
+						fmt.Fprintf(w, "dec2x %s %s\n", hexs(o), hexs(a[:min(len(a), 3)]))
+					}
+				}
 				fmt.Fprintf(w, "dec2 plain %s %s\n", hexs(a), hexs(b[:1+g.Intn(len(b))])) // good one, then a truncated one
 			}
 		}
@@ -511,6 +520,15 @@ func genCodecDecT(g *Gen, w *bufio.Writer, t *fTables) {
 		man := mandatoryL(g, m, -1, -1, -1, true)
 		base := renderMsg(m, man, nil)
 		emit(m.Name, base)
+		// the same struct decoded into twice: mandatory parts with different lengths and contents, longer first and shorter first
+		for k := 0; k < 3; k++ {
+			m1 := renderMsg(m, mandatoryL(g, m, -1, -1, -1, k != 0), nil)
+			m2 := renderMsg(m, mandatoryL(g, m, -1, -1, -1, true), nil)
+			if len(m1) >= 1 && len(m2) >= 1 {
+				fmt.Fprintf(w, "dec2 %s %s %s\n", m.Name, hexs(m1), hexs(m2))
+				fmt.Fprintf(w, "dec2 %s %s %s\n", m.Name, hexs(m2), hexs(m1))
+			}
+		}
 		for k := 0; k < len(base); k++ {
 			emit(m.Name, base[:k])
 		}
@@ -593,6 +611,7 @@ func genCodecEnc(g *Gen, w *bufio.Writer) {
 }
 
 func genCodecEncT(g *Gen, w *bufio.Writer, t *fTables) {
+	lastWire := map[string][]byte{}
 	one := func(fam string, d *fDispatch, c fCase, m *fMsg, present func(j int) bool) {
 		typ, ti, epd := -1, -1, -1
 		if d != nil {
@@ -611,6 +630,10 @@ func genCodecEncT(g *Gen, w *bufio.Writer, t *fTables) {
 		hdr := "-"
 		if d != nil {
 			hdr = hexs(wire[:d.HeaderLen])
+			if prev, ok := lastWire[fam]; ok && g.Intn(6) == 0 && len(prev) < 4000 && len(wire) < 4000 {
+				fmt.Fprintf(w, "dec2 plain %s %s\n", hexs(prev), hexs(wire)) // a recycled Message in a receive loop
+			}
+			lastWire[fam] = wire
 		}
 		fmt.Fprintf(w, "enc %s hdr=%s %s %s\n", fam, hdr, m.Name, fieldsStr(man, opt))
 		if d != nil {
